@@ -34,8 +34,12 @@ type Prog struct {
 	Body     []*Item
 	Files    map[string]*IncFile
 	Cfg      [6]string // evasion unix, windows; suffix unix, windows; no-space suffix unix, windows
-	CfgMode  string    // present | absent | empty | malformed
+	CfgMode  string    // present | absent | empty | malformed | mistyped
+	CfgBad   int       // mistyped: which value is a sequence/mapping instead of a string
 	Features map[string]bool
+	// an entry with a hand-written inline flag group was added: the plain reading does not cover it
+	// (the final passes strip such groups), only the C02 shape of the output is judged
+	InlineFlags bool
 }
 
 func (p *Prog) feat(f string) {
@@ -146,6 +150,18 @@ func (p *Prog) Tree(id string, text string, o *renderOpts) Tree {
 		t["regex-assembly/toolchain.yaml"] = ""
 	case "malformed":
 		t["regex-assembly/toolchain.yaml"] = "patterns: [unclosed\n  anti_evasion: {{{\n"
+	case "mistyped":
+		// valid YAML, proper patterns, ONE value of the wrong type: the decoder reports an error
+		// (after filling the other fields) and the whole file must count as unreadable
+		y := renderConfig(p.Cfg)
+		key := []string{"anti_evasion:\n    unix: ", "anti_evasion:\n    windows: ", "anti_evasion_suffix:\n    unix: ", "anti_evasion_suffix:\n    windows: ", "anti_evasion_no_space_suffix:\n    unix: ", "anti_evasion_no_space_suffix:\n    windows: "}[p.CfgBad%6]
+		short := key[strings.LastIndex(key, "\n")+1:]
+		i := strings.Index(y, key)
+		j := i + len(key)
+		k := j + strings.Index(y[j:], "\n")
+		bad := []string{"[a, b]", "{x: 1}"}[(p.CfgBad/6)%2]
+		_ = short
+		t["regex-assembly/toolchain.yaml"] = y[:j] + bad + y[k:]
 	}
 	return t
 }
@@ -192,10 +208,13 @@ func (p *Prog) FsArg(o *renderOpts, rendered map[string]string) string {
 
 // D: a denotation, as prefix-form regex for the verified checker and as fully grouped
 // regex text for confirmation of a reported difference on Go's own engine
-type D struct{ rx, txt string }
+type D struct {
+	rx, txt string
+	none    bool // a stored name that held nothing: appending it adds nothing
+}
 
-func catD(a, b D) D   { return D{catRX(a.rx, b.rx), a.txt + b.txt} }
-func epsD() D         { return D{"e", ""} }
+func catD(a, b D) D { return D{rx: catRX(a.rx, b.rx), txt: a.txt + b.txt} }
+func epsD() D       { return D{rx: "e", txt: ""} }
 func altD(xs []D) D {
 	rxs := make([]string, len(xs))
 	txts := make([]string, len(xs))
@@ -203,7 +222,7 @@ func altD(xs []D) D {
 		rxs[i] = x.rx
 		txts[i] = x.txt
 	}
-	return D{altRX(rxs), "(?:" + strings.Join(txts, "|") + ")"}
+	return D{rx: altRX(rxs), txt: "(?:" + strings.Join(txts, "|") + ")"}
 }
 func catAllD(xs []D) D {
 	out := epsD()
@@ -271,9 +290,9 @@ func (c *denCtx) entryD(text string) D {
 	rx, err := textToRX(t, c.fold, c.dotNL)
 	if err != nil {
 		c.fail(fmt.Errorf("entry %q: %w", text, err))
-		return D{"v", "[^\\x00-\\x{10FFFF}]"}
+		return D{rx: "v", txt: "[^\\x00-\\x{10FFFF}]"}
 	}
-	return D{rx, "(?:" + t + ")"}
+	return D{rx: rx, txt: "(?:" + t + ")"}
 }
 
 func spaceRX() string { return "c 3 9 10 12 13 32 32" }
@@ -308,7 +327,7 @@ func (c *denCtx) cmdWordD(word string, cmdType string) D {
 			if suf != "" {
 				d := c.entryD(suf)
 				suffixD = &d
-			} 
+			}
 		} else if last == '~' {
 			body = word[:len(word)-1]
 			if ns != "" {
@@ -324,14 +343,14 @@ func (c *denCtx) cmdWordD(word string, cmdType string) D {
 		}
 		ch := body[i]
 		if ch == ' ' {
-			parts = append(parts, D{catRX(spaceRX(), "s "+spaceRX()), "\\s+"})
+			parts = append(parts, D{rx: catRX(spaceRX(), "s "+spaceRX()), txt: "\\s+"})
 		} else {
 			r := rune(ch)
 			q := regexpQuote(ch)
 			if c.fold {
-				parts = append(parts, D{clsRX(foldOrbit(r)), q})
+				parts = append(parts, D{rx: clsRX(foldOrbit(r)), txt: q})
 			} else {
-				parts = append(parts, D{clsRX([]rune{r, r}), q})
+				parts = append(parts, D{rx: clsRX([]rune{r, r}), txt: q})
 			}
 		}
 	}
@@ -385,7 +404,7 @@ func (c *denCtx) blockD(items []*Item) (D, bool) {
 				if outSet {
 					c.stash[it.Text] = out
 				} else {
-					c.stash[it.Text] = epsD()
+					c.stash[it.Text] = D{rx: "e", none: true}
 				}
 				out, outSet = epsD(), false
 			case "append":
@@ -393,7 +412,10 @@ func (c *denCtx) blockD(items []*Item) (D, bool) {
 				st, ok := c.stash[it.Text]
 				if !ok {
 					c.fail(fmt.Errorf("unknown stored name %q", it.Text))
-					st = D{"v", "[^\\x00-\\x{10FFFF}]"}
+					st = D{rx: "v", txt: "[^\\x00-\\x{10FFFF}]"}
+				}
+				if st.none {
+					continue // nothing was stored under that name: the buffer stays as it is
 				}
 				if outSet {
 					out = catD(out, st)
